@@ -139,3 +139,59 @@ func Addr(proto, ip string, port int) net.Addr {
 	}
 	return &net.UDPAddr{IP: p, Port: port}
 }
+
+// ResolverOpts configures a full-pipeline server resolving against a scripted namespace.
+type ResolverOpts struct {
+	RootAddr string
+	RootKeys []string // presentation-format DNSKEYs; empty = no trust anchors
+	DNSSEC   bool
+	Dir      string
+	Mapper   func(string) string
+	Mutate   func(*config.Config)
+}
+
+// NewResolverServer builds the real default chain including cache and resolver
+// (everything up to, not including, the forwarder) against a scripted root.
+func NewResolverServer(o ResolverOpts) (*server.Server, *config.Config) {
+	cfg := BaseConfig()
+	cfg.RootServers = []string{o.RootAddr}
+	cfg.Root6Servers = nil
+	cfg.RootKeys = o.RootKeys
+	cfg.IPv6Access = false
+	cfg.DNSSEC = "off"
+	if o.DNSSEC {
+		cfg.DNSSEC = "on"
+	}
+	cfg.Directory = o.Dir
+	cfg.Timeout.Duration = 1500 * time.Millisecond
+	cfg.QueryTimeout.Duration = 6 * time.Second
+	if o.Mutate != nil {
+		o.Mutate(cfg)
+	}
+	setupMu.Lock()
+	defer setupMu.Unlock()
+	middleware.Reset()
+	defaults.RegisterUpTo("forwarder")
+	middleware.Setup(cfg)
+	if h, ok := middleware.Get("resolver").(interface {
+		VerifSetResolveTarget(func(string) string)
+	}); ok && o.Mapper != nil {
+		h.VerifSetResolveTarget(o.Mapper)
+	}
+	s := server.New(cfg)
+	return s, cfg
+}
+
+// Ask sends one query through ServeMsg from a (non-loopback) client and returns the reply.
+func Ask(s *server.Server, q *dns.Msg, proto, ip string) *dns.Msg {
+	sink := &Sink{Remote: Addr(proto, ip, 40000)}
+	s.ServeMsg(context.Background(), sink, q)
+	if len(sink.Writes) == 0 {
+		return nil
+	}
+	m := new(dns.Msg)
+	if err := m.Unpack(sink.Writes[len(sink.Writes)-1]); err != nil {
+		return nil
+	}
+	return m
+}
